@@ -20,7 +20,9 @@ import (
 // "one lock at a time" when its own segment cannot pay, and may then
 // legitimately queue behind the held lock; that is waiting on a segment lock,
 // not on a global one. The over-capacity scenario therefore gives the writer's
-// own segment enough other entries to pay the toll locally.
+// own segment enough other entries to pay the toll locally. The complementary
+// scenario - the writer's segment cannot pay, the writer parks on the held
+// segment, and everything else must still get through - is nest.go.
 
 const nolockWait = 20 * time.Second
 
